@@ -23,7 +23,7 @@ META = {
               "is the reference DFT is the trusted base)",
               "STFT units: exact DFT stub, np proxy, SymTime, object Quantities as in C03"],
     "bounds": {"dispatch": "14 names x 6 argument patterns with symbolic n / axis passed through; unknown names",
-               "stft": "nperseg in {1,2,4} quick, +{3} thorough; nchan in {1,2,3}; 1-2 segments plus a ragged tail; extra polarisation axis"},
+               "stft": "nperseg in {1,2,3,4}; nchan in {1,2,3}; 1-2 segments plus a ragged tail; extra polarisation axis"},
     "assumptions": ["exact real arithmetic for STFT/ISTFT"],
     "outside": ["SciPy's numerics", "Dask branch (C09)", "windows other than boxcar (NotImplemented is returned)"],
 }
@@ -282,4 +282,7 @@ def units(tier):
             us.append(STFT(P, C, 1 if (P + C) % 2 else 2, (P + C) % P if P > 1 else 0, next(acyc)))
         us.append(STFT(P, 2, 1, 0, next(acyc), dual=True))
         us.append(STFT(P, 2, 2, P - 1, next(acyc)))
+    if tier == "quick":
+        us.append(STFT(3, 1, 2, 1, "center"))
+        us.append(STFT(3, 2, 1, 0, "bottom"))
     return us
